@@ -110,7 +110,7 @@ def init():
 
 
 def outcome(p, d):
-    o = impl.run(p.parse, d, 0, True, spans=True, time_limit=5.0)
+    o = impl.run(p.parse, d, 0, True, spans=True, time_limit=5.0, patient=True)
     if o['kind'] == 'RET':
         return ('OK', o['value'])
     if o['kind'] == 'PARTIAL':
